@@ -5,7 +5,7 @@
    coefficient- and phase-weighted sums of these values (expect_poly below, mirroring the repaired code); overlaps and get_prob go through projection_trace
    (invariant proved; values tied to the dense Tr(rho sigma) by the correspondence check).  PARTIAL: the group-sum expansion of rho itself is C19. *)
 From Coq Require Import QArith Qcanon.
-From PC Require Import Model.Base Model.Pauli Model.CMap Model.Tableau Model.Spec Model.Poly Proofs.TableauInv Proofs.MeasureFacts.
+From PC Require Import Model.Base Model.Pauli Model.CMap Model.Tableau Model.Spec Model.Poly Proofs.TableauInv Proofs.MeasureFacts Model.PolySem Model.Sample Proofs.TraceFacts.
 Open Scope Z_scope.
 
 Theorem C07_expectation_plus_one : forall n t o, tableau_ok n t -> length (fst o) = n -> hermP o -> (expect1 t o = 1 <-> in_group n t o).
@@ -42,3 +42,13 @@ Theorem C07_projection_trace_keeps_invariant : forall n obs t, tableau_ok n t ->
   tableau_ok n (fst (fst (projection_trace t obs))).
 Proof. exact projection_trace_ok. Qed.
 Print Assumptions C07_projection_trace_keeps_invariant.
+(* MAIN: the value computed by the kernel IS Tr(rho O), with rho = 2^-N sum over the stabilizer group (the polynomial returned by density_matrix) and Tr the sum of the
+   diagonal matrix elements over all 2^N kets in the ket semantics -- for every state of every rank and sign pattern and every Hermitian Pauli O *)
+Theorem C07_expectation_is_trace_rho_O : forall n t o, tableau_ok n t -> length (fst o) = n -> hermP o -> tr_rho n t o = zcoef (expect1 t o).
+Proof. exact expect_is_trace. Qed.
+Print Assumptions C07_expectation_is_trace_rho_O.
+Theorem C07_trace_of_pauli_products : forall n a b, length (fst a) = n -> length (fst b) = n ->
+  (fst a = fst b -> trace_sem n (pmulp [(c1, a)] [(c1, b)]) = cipow (snd (pmul a b)) (two_pow n)) /\
+  (fst a <> fst b -> trace_sem n (pmulp [(c1, a)] [(c1, b)]) = c0).
+Proof. intros n a b Ha Hb. split; intro H; [exact (trace_pauli_product_same n a b Ha Hb H) | exact (trace_pauli_product_diff n a b Ha Hb H)]. Qed.
+Print Assumptions C07_trace_of_pauli_products.
